@@ -3,6 +3,7 @@ package main
 // C04 Dependency injection resolves every parameter by type, nearest scope first.
 
 import (
+	"fmt"
 	"go/token"
 	"go/types"
 	"strings"
@@ -149,6 +150,87 @@ func checkC04(c *Check) {
 				}
 			}
 		}
+	}
+
+	// ---- R7 lookups do not write
+	c.Rule("R7", "E5 effects", "resolving a value never changes a scope: Value, Invoke and Apply (and what they call inside the injector) store nothing into the injector — a hit in an outer scope or an implementor found by scanning is not recorded as a registration of the inner scope", 4)
+	for _, fn := range p.Funcs() {
+		r := fn.Signature.Recv()
+		if r == nil || namedName(derefT(r.Type())) != "injector" || fn.Pkg != p.SSA["inject"] {
+			continue
+		}
+		switch fn.Name() {
+		case "Map", "MapTo", "Set", "SetParent":
+			continue
+		}
+		key := p.FuncKey(fn) + ":read-only"
+		bad := false
+		allInstrs(fn, func(in ssa.Instruction) {
+			switch x := in.(type) {
+			case *ssa.MapUpdate:
+				if o, _, _ := ownerOfValue(x.Map); o != nil && o.Obj().Name() == "injector" {
+					bad = true
+					c.Bad(key, p.Pos(x.Pos()), "the lookup path writes into the injector's table ("+vstr(x.Map)+"): a value resolved from an outer scope or by implementor scan becomes a registration of this scope (wrong precedence later, stale after re-registration, and a data race on the shared application scope)")
+				}
+			case *ssa.Store:
+				if o := ownerNamed(x.Addr); o != nil && o.Obj().Name() == "injector" {
+					bad = true
+					c.Bad(key, p.Pos(x.Pos()), "the lookup path stores into the injector")
+				}
+			case ssa.CallInstruction:
+				if callName(x.Common()) == "builtin.delete" {
+					if o, _, _ := ownerOfValue(x.Common().Args[0]); o != nil && o.Obj().Name() == "injector" {
+						bad = true
+						c.Bad(key, p.Pos(in.Pos()), "the lookup path deletes from the injector's table")
+					}
+				}
+			}
+		})
+		if !bad {
+			c.OK(key, p.FuncPos(fn), "no store into the injector", numInstrs(fn))
+		}
+	}
+
+	// ---- R8 handlers are invoked only through the injector
+	c.Rule("R8", "E5 who-may-call", "FastInvoker.Invoke is called only by the injector's fast path, and the per-request context does not shadow any method of inject.Injector: every handler's arguments come from the scope chain", 2)
+	if fi := p.Named("inject", "FastInvoker"); fi != nil {
+		n := 0
+		for _, fn := range p.Funcs() {
+			allInstrs(fn, func(in ssa.Instruction) {
+				ci, ok := in.(ssa.CallInstruction)
+				if !ok {
+					return
+				}
+				isFast := false
+				if ci.Common().IsInvoke() && ci.Common().Method.Name() == "Invoke" && namedName(ci.Common().Value.Type()) == "FastInvoker" {
+					isFast = true
+				} else if f := ci.Common().StaticCallee(); f != nil && f.Name() == "Invoke" && f.Signature.Recv() != nil && p.inModule(f) && namedName(derefT(f.Signature.Recv().Type())) != "injector" {
+					// direct call of a concrete fast invoker's Invoke
+					if types.Implements(f.Signature.Recv().Type(), fi.Underlying().(*types.Interface)) {
+						isFast = true
+					}
+				}
+				if !isFast {
+					return
+				}
+				n++
+				okSite := fn.Name() == "fastInvoke" && fn.Pkg == p.SSA["inject"]
+				c.Cond(okSite, p.FuncKey(fn)+":calls-FastInvoker.Invoke", p.Pos(in.Pos()), "fast invokers are called by injector.fastInvoke only", "a fast invoker is called outside the injector: its arguments bypass the scope chain (request-scope registrations are ignored)")
+			})
+		}
+		if n == 0 {
+			c.Anchor("a call of FastInvoker.Invoke")
+		}
+	}
+	if inj := p.Named("inject", "Injector"); inj != nil {
+		iface := inj.Underlying().(*types.Interface)
+		shadow := []string{}
+		for i := 0; i < iface.NumMethods(); i++ {
+			if m := p.Meth("flamego", "context", iface.Method(i).Name()); m != nil {
+				shadow = append(shadow, iface.Method(i).Name())
+			}
+		}
+		c.Cond(len(shadow) == 0, "flamego.context:no-injector-shadowing", "context.go", "context declares none of inject.Injector's methods itself (they are the embedded scope's)", fmt.Sprintf("the per-request context shadows injector methods %v: resolution no longer goes through the scope chain", shadow))
 	}
 
 	// ---- R2 registration keys
@@ -585,6 +667,13 @@ func checkFastInvoker(c *Check, fn *ssa.Function) {
 		if !ok {
 			okRes = false
 			return
+		}
+		for i := 0; i < nres; i++ {
+			if _, isIface := sig.Results().At(i).Type().Underlying().(*types.Interface); isIface {
+				// reflect.ValueOf(x) of an interface-typed result loses the static type (a nil error becomes the
+				// invalid Value); the reflective path returns a Value of the interface type
+				okRes = false
+			}
 		}
 		got := map[int64]bool{}
 		for _, rf := range referrers(al) {
